@@ -60,6 +60,8 @@ func histories(tier string) []history {
 		{Name: "2-concurrent-mixed", Groups: [][]execSpec{{{RunID: "r1", ToStep: 1, ToClose: "after", FromStep: 1, WantFrom: true}, {RunID: "r2", StepFatal: true}}}},
 		{Name: "2-concurrent-same-id", Groups: [][]execSpec{{e("r1"), e("r1")}}},
 		{Name: "2-serial-same-id", Groups: [][]execSpec{{e("r1")}, {e("r1")}}},
+		{Name: "2-concurrent-unattributed-fatal-then-2-concurrent", Groups: [][]execSpec{{{RunID: "r1", StepFatal: true, Unattributed: true}, e("r2")}, {e("r3"), e("r4")}}},
+		{Name: "2-concurrent-unattributed-fatal-then-2-concurrent-stream", Stream: true, Groups: [][]execSpec{{{RunID: "r1", StepFatal: true, Unattributed: true}, e("r2")}, {e("r3"), e("r4")}}},
 		{Name: "2-concurrent-unattributed-fatal-then-1", Groups: [][]execSpec{{{RunID: "r1", StepFatal: true, Unattributed: true}, e("r2")}, {e("r3")}}},
 		{Name: "2-concurrent-close-while-pending", CloseEarly: true, Groups: [][]execSpec{{e("r1"), e("r2")}}},
 		{Name: "1-exec-signal-from-step-close-while-pending", CloseEarly: true, Groups: [][]execSpec{{{RunID: "r1", FromStep: 1, WantFrom: true}}}},
